@@ -285,3 +285,112 @@ def bnd_histories(tier, seed):
                 H.shutdown(proto, conn)
     return {"evaluations": n_eval, "distinct": len(distinct), "failures": list(fails), "scope": "random histories of 3..12 events over {connect, close, disable, Select/Deselect/Linktest/Separate/Linktest.rsp/Reject, data}",
             "rule": "distinct = event sequences", "samples": [["connect", 1, 0, "close"]]}
+
+
+def _run_history(mode, events, fails, tag):
+    """Drive one history on a fresh protocol; the E37 oracle runs alongside.  -> number of judged steps."""
+    proto, conn, log = H.make_hsms(mode=mode, sync=True)
+    proto.enable()
+    state = NC
+    judged = 0
+    try:
+        for i, (ev, system) in enumerate(events):
+            before = len(conn.sent)
+            n_before = len(log["message_received"])
+            if ev == "connect":
+                if state == NC:
+                    conn.connect()
+                    state = NS
+                continue
+            if ev in ("close", "disable"):
+                if state != NC:
+                    conn.close() if ev == "close" else proto.disable()
+                    if ev == "disable":
+                        proto.enable()
+                    state = NC
+                continue
+            if state == NC:
+                continue
+            if ev == 0:
+                conn.feed(H.frame(0, system, 1, 1, True, b""))
+            else:
+                conn.feed(H.frame(ev, system, session=0xFFFF))
+            nxt, outs, deliv = expect(state, False, ev, system, None)
+            judged += 1
+            state = nxt
+            got = state_of(proto)
+            new_frames = H.MemConnection.frames(type("X", (), {"sent": conn.sent[before:]})())
+            w = {"mode": mode, "history": [e for e, _ in events[:i + 1]]}
+            if got != state:
+                fails.add(f"{tag}.state", dict(w, got=got, want=state), "session state diverges from the E37 oracle")
+                break
+            if outs is not None and [(f["stype"], f["system"]) for f in new_frames] != [(o[0], system) for o in outs]:
+                fails.add(f"{tag}.responses", dict(w, frames=[(f["stype"], f["system"]) for f in new_frames], want=outs), "frames written differ from the oracle")
+                break
+            if (len(log["message_received"]) - n_before) != (1 if deliv else 0):
+                fails.add(f"{tag}.delivery", dict(w, delivered=len(log["message_received"]) - n_before, want=1 if deliv else 0),
+                          "delivery to the application differs from the oracle (data is delivered exactly in SELECTED)")
+                break
+    finally:
+        H.shutdown(proto, conn)
+    return judged
+
+
+@bounded("C05", "all-short-histories")
+def bnd_short_histories(tier, seed):
+    """EVERY history up to a length over {connect, peer close, Select.req, Deselect.req, Separate.req, data}: catches
+    state that survives a disconnect or a deselect (caches, flags) which the per-step checks cannot see."""
+    neutralise_threads()
+    fails = Fail()
+    n_eval = 0
+    n_hist = 0
+    alphabet = ("connect", "close", 1, 3, 9, 0)
+    depth = 6 if tier == "quick" else 7
+    with H.virtual_timers():
+        for mode in ("passive", "active"):
+            for n in range(2, depth + 1):
+                for events in itertools.product(alphabet, repeat=n):
+                    if events[0] != "connect" or events[-1] in ("connect", "close"):
+                        continue       # normal form: starts connected, ends with a judged step
+                    n_hist += 1
+                    n_eval += _run_history(mode, [(e, 0x0A0B0C00 + i) for i, e in enumerate(events)], fails, "short-history")
+    return {"evaluations": n_eval, "distinct": n_hist, "failures": list(fails),
+            "scope": f"all histories of length <= {depth} over {{connect, peer close, Select.req, Deselect.req, Separate.req, data W}} in passive and active mode",
+            "rule": "distinct = histories; evaluations = judged steps", "samples": [["connect", 1, "close", "connect", 0]]}
+
+
+@fd("C05", "state-machine-contracts")
+def fd_state_machine_contracts():
+    """The assumed call-site contracts of ConnectionStateMachine.select/deselect (contracts/C05_session.py) are read
+    off the contract classes and compared with the real machine from every state: raises WrongSourceStateError and
+    changes nothing unless the current state is the contract's source, else ends in the contract's target."""
+    from contracts import C05_session as K
+    from secsgem.hsms.connection_state_machine import ConnectionStateMachine
+    from secsgem.common.state_machine import WrongSourceStateError
+    obs = []
+    total = 0
+    for ccls, op in ((K.SMSelect, "select"), (K.SMDeselect, "deselect")):
+        bad = None
+        for start in (K.NC, K.NS, K.S):
+            total += 1
+            m = ConnectionStateMachine()
+            if start is not K.NC:
+                m.connect()
+            if start is K.S:
+                m.select()
+            assert m.current is start
+            want_raise = bool(ccls.raises(m)[WrongSourceStateError])
+            try:
+                getattr(m, op)()
+                raised = False
+            except WrongSourceStateError:
+                raised = True
+            want_state = start if want_raise else ccls.sm_target
+            actives = sorted(s.name for s in (m.not_connected, m.connected, m.connected_not_selected, m.connected_selected) if s.active)
+            if raised != want_raise or m.current is not want_state:
+                bad = {"op": op, "from": start.name, "raised": raised, "contract_raises": want_raise, "state": m.current.name, "contract_state": want_state.name}
+                break
+        obs.append({"name": f"{op}.contract-matches-real-machine", "ok": bad is None, "witness": bad,
+                    "detail": "the assumed contract of the transition differs from the real ConnectionStateMachine"})
+    return {"obligations": obs, "domain": "{select, deselect} x {NOT_CONNECTED, NOT_SELECTED, SELECTED} on a real ConnectionStateMachine",
+            "size": total, "exhaustive": True, "samples": [{"op": "select", "from": "CONNECTED_NOT_SELECTED", "to": "CONNECTED_SELECTED"}]}
